@@ -514,3 +514,85 @@ def forced(fm, atom, value) -> bool:
         if G.evaluate(fm, v):
             return False
     return True
+
+
+# ----------------------------------------------------------------------- what a list is built from
+def items_of(expr):
+    """Element-wise description of a list-valued expression:
+    [('one', element node) | ('many', element node, iterable node, [conditions]) | ('copy', source node) | ('unknown', node)]"""
+    if isinstance(expr, (ast.List, ast.Tuple)):
+        out = []
+        for e in expr.elts:
+            if isinstance(e, ast.Starred):
+                out.append(('copy', e.value))
+            else:
+                out.append(('one', e))
+        return out
+    if isinstance(expr, (ast.ListComp, ast.GeneratorExp)) and len(expr.generators) == 1:
+        g = expr.generators[0]
+        return [('many', expr.elt, g.iter, list(g.ifs))]
+    if isinstance(expr, ast.BinOp) and isinstance(expr.op, ast.Add):
+        return items_of(expr.left) + items_of(expr.right)
+    if isinstance(expr, ast.BinOp) and isinstance(expr.op, ast.Mult):
+        lst, n = (expr.left, expr.right) if isinstance(expr.left, ast.List) else (expr.right, expr.left)
+        if isinstance(lst, ast.List) and len(lst.elts) == 1:
+            return [('many', lst.elts[0], ast.Call(func=ast.Name(id='range', ctx=ast.Load()), args=[n], keywords=[]), [])]
+    if isinstance(expr, ast.Call) and isinstance(expr.func, ast.Name) and expr.func.id in ('list', 'tuple') and len(expr.args) == 1:
+        inner = items_of(expr.args[0])
+        if all(k[0] != 'unknown' for k in inner):
+            return inner
+        return [('copy', expr.args[0])]
+    if isinstance(expr, ast.Call) and isinstance(expr.func, ast.Name) and expr.func.id == 'list' and not expr.args:
+        return []
+    return [('unknown', expr)]
+
+
+def list_content(fi: FuncInfo, receiver: str, limit=4000):
+    """[(path condition, items, SymPath)]: what the list named `receiver` (a local name or `self.attr`) holds at the end of every
+    feasible path, from its (re)binding and the append / extend / insert / += that follow.  Items as in items_of; a path on
+    which the receiver is never bound starts with ('copy', <receiver>)."""
+    out = []
+    for sp in symex.func_sym_paths(fi, limit):
+        items = [('copy', ast.parse(receiver, mode='eval').body)]
+        for e in sp.events:
+            n = e.node
+            if isinstance(n, (ast.Assign, ast.AnnAssign)) and e.kind in ('assign', 'store'):
+                tg = n.targets if isinstance(n, ast.Assign) else [n.target]
+                if any(src(t) == receiver for t in tg):
+                    items = items_of(e.expr)
+            elif isinstance(n, ast.AugAssign) and src(n.target) == receiver and isinstance(n.op, ast.Add):
+                v = e.expr.right if isinstance(e.expr, ast.BinOp) and e.kind == 'assign' else e.expr
+                items = items + items_of(v)
+            elif isinstance(n, ast.Expr) and isinstance(n.value, ast.Call) and isinstance(n.value.func, ast.Attribute) \
+                    and src(n.value.func.value) == receiver and isinstance(e.expr, ast.Call):
+                m = n.value.func.attr
+                if m == 'append' and len(e.expr.args) == 1:
+                    items = items + [('one', e.expr.args[0])]
+                elif m == 'extend' and len(e.expr.args) == 1:
+                    items = items + items_of(e.expr.args[0])
+                elif m == 'insert' and len(e.expr.args) == 2 and isinstance(e.expr.args[0], ast.Constant) and e.expr.args[0].value == 0:
+                    items = [('one', e.expr.args[1])] + items
+                elif m in ('clear',):
+                    items = []
+                elif m in ('pop', 'remove', 'sort', 'reverse', 'insert'):
+                    items = items + [('unknown', e.expr)]
+        out.append((sp.condition(), items, sp))
+    return out
+
+
+def eval_function(ctx, fi: FuncInfo, env: dict):
+    """Interpret a small side-effect-free function on concrete arguments with the checker's own evaluator (no repository code
+    runs): the feasible path whose tests hold is followed and its return value evaluated.  -> (True, value) | (False, None)"""
+    from .consteval import NotConst
+    for sp in symex.func_sym_paths(fi, 200):
+        try:
+            if not all(bool(ctx.ce.eval(c, fi.module, fi.cls, dict(env))) == t for c, t in sp.conds):
+                continue
+            if sp.end == 'fall':
+                return True, None
+            if sp.end != 'return':
+                return False, None
+            return True, ctx.ce.eval(sp.value, fi.module, fi.cls, dict(env))
+        except (NotConst, AnalysisError, TypeError, KeyError):
+            return False, None
+    return False, None
